@@ -1,20 +1,122 @@
 """C08 — size setters hit their target by pure similarity; bad targets are refused."""
+import itertools
+
 import numpy as np
 
 import gen
 import shapes_common as sc
 from common import L, ModelRaise, exc_kind
 
-RULE = ("every settable property (found by reflection) of every shape class x positive targets current*f with f "
-        "log-uniform in 1e-3..1e3 x base shapes in general position ('regular' and 'generic'), plus targets 0, negative, "
-        "nan; distinct = distinct (class, flavour, property, target)")
+RULE = ("every settable property (found by reflection, and compared with the Lean table of model steps) of every shape "
+        "class x positive targets current*f with f log-uniform in 1e-3..1e3 x base shapes in general position: for every "
+        "class off-origin, for the 2-D classes tilted planes, clockwise and counter-clockwise vertex order (explicit "
+        "normal), non-convex polygons incl. a reflex first corner (flipped default normal), non-convex and non-star-shaped "
+        "polyhedra (voxel solids), a tetrahedron, rounding radius 0 / moderate / large, ellipse and ellipsoid semi-axes in "
+        "every ordering, tied and nearly tied; plus targets 0, negative, nan; distinct = distinct (class, flavour, "
+        "property, target)")
 ASSUMPTIONS = [
     "similarity is judged on the vertex arrays (all inter-vertex distances scale by one factor k > 0, chirality kept, "
-    "scaling about the origin as the code does) and on radii/semi-axes; centroid/center assignment must be a pure translation",
+    "scaling about the origin as the code does) and on radii/semi-axes; every other size-like getter must scale by "
+    "k^degree; centroid/center assignment must be a pure translation",
     "a setter whose getter raises on this shape (e.g. no insphere) is expected to raise without changing the shape",
 ]
 
 DIMLESS = ["iq", "tau", "asphericity", "eccentricity", "num_vertices", "num_faces", "num_edges"]
+CLASSES = sc.VERTEX_CLASSES + sc.CURVED_CLASSES        # the order of `Setters.Cls.all` in Model/Setters.lean
+
+# ------------------------------------------------------------------ base shapes (always all of them, every seed)
+
+FLAVOURS = {
+    "ConvexPolyhedron": ["regular", "generic", "tetrahedron", "generic-far"],
+    "Polyhedron": ["regular", "generic", "nonconvex", "nonstar"],
+    "ConvexSpheropolyhedron": ["regular", "generic", "r0", "rbig"],
+    "Polygon": ["regular", "generic", "cw-normal", "cw-normal-xy", "reflex-first", "reflex-first-xy", "nonconvex-tilted"],
+    "ConvexPolygon": ["regular", "generic", "cw-normal", "tilted-far"],
+    "ConvexSpheropolygon": ["regular", "generic", "r0", "rbig", "tilted-cw"],
+    "Circle": ["any", "small-far"],
+    "Sphere": ["any", "small-far"],
+    "Ellipse": ["a<b", "a>b", "tie", "near-tie"],
+    "Ellipsoid": ["abc", "acb", "bac", "bca", "cab", "cba", "tie-ab", "tie-bc", "tie-ac", "tie-all", "near-tie"],
+}
+
+
+def build(rng, cls, flavour):
+    """the base shape of a case (deterministic in rng)."""
+    S = sc.shapes_mod()
+    if cls in sc.VERTEX_CLASSES and flavour in ("regular", "generic"):
+        return sc.base_shape(rng, cls, flavour)
+    if cls == "ConvexPolyhedron":
+        if flavour == "tetrahedron":
+            v = rng.normal(size=(4, 3)) + rng.uniform(-3, 3, size=3)
+            return S.ConvexPolyhedron(v)
+        o = sc.base_shape(rng, cls, "generic")
+        sc_ = float(10 ** rng.uniform(-1.5, 1.5))
+        return S.ConvexPolyhedron((np.array(o.vertices) + rng.uniform(-5, 5, size=3)) * sc_)
+    if cls == "Polyhedron":
+        kinds = ["L", "T", "stairs", "L3d", "plus"] if flavour == "nonconvex" else ["U", "C"]
+        vs = gen.c05_voxel_solid(rng, kinds[int(rng.integers(len(kinds)))])
+        v = np.asarray(vs["vertices"], dtype=float) @ gen.random_rotation(rng).T * float(rng.uniform(0.3, 3))
+        v = v + rng.uniform(-4, 4, size=3)
+        return S.Polyhedron(v, [np.array(f) for f in vs["faces"]], faces_are_convex=True)
+    if cls == "ConvexSpheropolyhedron":
+        o = sc.base_shape(rng, cls, "generic" if rng.random() < 0.5 else "regular")
+        d = gen.diameter(np.array(o.vertices))
+        return S.ConvexSpheropolyhedron(np.array(o.vertices), 0.0 if flavour == "r0" else float(d * rng.uniform(3, 8)))
+    if cls == "Polygon":
+        if flavour.startswith("cw-normal"):
+            _, p2 = gen.polygon2d(rng, ["star", "comb", "convex", "spiral"][int(rng.integers(4))])
+            v, fr = gen.embed_polygon(rng, p2, plane="xy" if flavour.endswith("xy") else "random",
+                                      offset_diams=float(rng.uniform(0.5, 4)))
+            return S.Polygon(v[::-1].copy(), normal=np.array(fr["n"], dtype=float))     # clockwise about the stored normal
+        if flavour.startswith("reflex-first"):
+            _, p2 = gen.polygon2d(rng, "reflex_first")
+            v, fr = gen.embed_polygon(rng, p2, plane="xy" if flavour.endswith("xy") else "random",
+                                      offset_diams=float(rng.uniform(0.5, 4)))
+            return S.Polygon(v)         # the default normal comes from the first (reflex) corner: flipped
+        _, p2 = gen.polygon2d(rng, ["star", "comb", "spiral"][int(rng.integers(3))])
+        v, fr = gen.embed_polygon(rng, p2, plane="random", offset_diams=float(rng.uniform(2, 8)))
+        return S.Polygon(v)
+    if cls == "ConvexPolygon":
+        _, p2 = gen.polygon2d(rng, "convex")
+        v, fr = gen.embed_polygon(rng, p2, plane="random", offset_diams=float(rng.uniform(2, 8)))
+        if flavour == "cw-normal":
+            return S.ConvexPolygon(v[::-1].copy(), normal=np.array(fr["n"], dtype=float))
+        return S.ConvexPolygon(v)
+    if cls == "ConvexSpheropolygon":
+        _, p2 = gen.polygon2d(rng, "convex")
+        if flavour == "tilted-cw":
+            v, fr = gen.embed_polygon(rng, p2, plane="random", offset_diams=float(rng.uniform(0.5, 4)))
+            return S.ConvexSpheropolygon(v[::-1].copy(), float(rng.uniform(0.1, 0.5)), normal=np.array(fr["n"], dtype=float))
+        v, fr = gen.embed_polygon(rng, p2, plane="xy", offset_diams=float(rng.uniform(0.5, 3)))
+        d = gen.diameter(v)
+        return S.ConvexSpheropolygon(v, 0.0 if flavour == "r0" else float(d * rng.uniform(3, 8)))
+    c = rng.uniform(-3, 3, size=3)
+    if cls in ("Circle", "Ellipse"):
+        c[2] = 0.0
+    if cls in ("Circle", "Sphere"):
+        if flavour == "small-far":
+            return getattr(S, cls)(float(10 ** rng.uniform(-3, -1)), c * 5)
+        return getattr(S, cls)(float(np.exp(rng.uniform(-1, 1))), c)
+    ax = np.sort(np.exp(rng.uniform(-1, 1, size=3)) * np.array([1.0, 1.6, 2.7]))     # distinct, increasing
+    if cls == "Ellipse":
+        a, b = {"a<b": (ax[0], ax[1]), "a>b": (ax[1], ax[0]), "tie": (ax[0], ax[0]),
+                "near-tie": (ax[0], ax[0] * (1 + float(rng.choice([-1, 1])) * 10 ** rng.uniform(-12, -6)))}[flavour]
+        return S.Ellipse(float(a), float(b), c)
+    named = dict(zip("abc", ax))
+    if flavour in ("abc", "acb", "bac", "bca", "cab", "cba"):
+        a, b, cc = (named[ch] for ch in flavour)
+    elif flavour == "tie-ab":
+        a, b, cc = ax[1], ax[1], ax[int(rng.choice([0, 2]))]
+    elif flavour == "tie-bc":
+        a, b, cc = ax[int(rng.choice([0, 2]))], ax[1], ax[1]
+    elif flavour == "tie-ac":
+        a, b, cc = ax[1], ax[int(rng.choice([0, 2]))], ax[1]
+    elif flavour == "tie-all":
+        a, b, cc = ax[1], ax[1], ax[1]
+    else:
+        e = 1 + rng.choice([-1, 1], size=3) * 10 ** rng.uniform(-12, -6, size=3)
+        a, b, cc = ax[1] * e
+    return S.Ellipsoid(float(a), float(b), float(cc), c)
 
 
 def dims(obj):
@@ -32,6 +134,8 @@ def geometry(obj):
     g = {}
     if hasattr(obj, "vertices"):
         g["vertices"] = np.array(obj.vertices, dtype=float)
+    if hasattr(obj, "normal"):
+        g["normal"] = np.array(obj.normal, dtype=float)
     for n in ("radius", "a", "b", "c"):
         if hasattr(obj, n) and not callable(getattr(type(obj), n, None)):
             try:
@@ -54,10 +158,26 @@ def same_geometry(g0, g1, size):
     return True
 
 
+def size_getters(obj, skip=()):
+    """every scalar settable property that can be read now: name -> value (the 'other observables' of a similarity)."""
+    out = {}
+    for q in sc.settable_properties(type(obj)):
+        if q in ("centroid", "center") or q in skip:
+            continue
+        if q in sc.LOOSE:
+            import random
+            random.seed(20240917)
+        try:
+            out[q] = float(getattr(obj, q))
+        except Exception:
+            pass
+    return out
+
+
 def eval_case(ctx, case):
     cls, flavour, prop, mode, val = case["cls"], case["flavour"], case["prop"], case["mode"], case["value"]
     rng = np.random.default_rng(case["base_seed"])
-    obj = sc.curved_shape(rng, cls) if cls in sc.CURVED_CLASSES else sc.base_shape(rng, cls, flavour)
+    obj = build(rng, cls, flavour)
     size = sc.size_of(obj)
     g0 = geometry(obj)
     d0 = dims(obj)
@@ -68,6 +188,7 @@ def eval_case(ctx, case):
     except Exception as e:
         cur, getter_raised = None, e
     if mode == "bad":
+        pre = model_pre(obj, cls, prop, cur, getter_raised)
         try:
             setattr(obj, prop, val)
             raised = None
@@ -78,11 +199,13 @@ def eval_case(ctx, case):
             ctx.fail(sig + ":bad-target-accepted", "assigning %r to %s.%s did not raise" % (val, cls, prop), case,
                      {k: np.asarray(v).tolist() for k, v in g1.items()})
             return
-        if not isinstance(raised, ValueError) and getter_raised is None:
+        if not isinstance(raised, ValueError):
+            # every size setter checks its target BEFORE reading the getter (so also when the getter would raise)
             ctx.fail(sig + ":bad-target-wrong-exception", "assigning %r raised %s, not ValueError" % (val, exc_kind(raised)),
                      case, repr(raised))
         if not same_geometry(g0, g1, size):
             ctx.fail(sig + ":bad-target-changes-shape", "a refused assignment changed the shape", case, "")
+        model_post(ctx, case, pre, obj, raised, val)
         return
     if mode == "vec" and getter_raised is not None:
         # no centroid is defined for this class (getter raises): the assignment must be refused cleanly
@@ -96,6 +219,7 @@ def eval_case(ctx, case):
         return
     if mode == "vec":
         target = np.array(val, dtype=float)
+        others0 = size_getters(obj)
         try:
             setattr(obj, prop, target)
         except Exception as e:
@@ -110,24 +234,36 @@ def eval_case(ctx, case):
             delta = g1["vertices"] - g0["vertices"]
             if not sc.num_close(delta, np.broadcast_to(delta[0], delta.shape), size1, 1e-9):
                 ctx.fail(sig + ":not-a-translation", "assigning the centre moved vertices differently", case, "")
-        for n in ("radius", "a", "b", "c"):
-            if n in g0 and not sc.num_close(g0[n], g1[n], size1, 1e-12):
+        for n in ("radius", "a", "b", "c", "normal"):
+            if n in g0 and not sc.num_close(g0[n], g1[n], size1 if n != "normal" else 1.0, 1e-12):
                 ctx.fail(sig + ":not-a-translation", "assigning the centre changed %s" % n, case, "")
         d1 = dims(obj)
         if any(isinstance(d0[k], float) and not sc.num_close(d0[k], d1.get(k, np.nan), 1.0, 1e-7) for k in d0):
             ctx.fail(sig + ":descriptor-changed", "a dimensionless descriptor changed under translation", case, [d0, d1])
+        others1 = size_getters(obj)
+        for q, v0 in others0.items():
+            tol = 1e-6 if q in sc.LOOSE else 1e-8      # 1e-8: cancellation when a far shape is moved next to the origin
+            if q not in others1 or not abs(others1[q] - v0) <= tol * max(abs(v0), size1 ** prop_code(q) * 1e-3):
+                ctx.fail(sig + ":size-changed", "a translation changed %s" % q, case, [v0, others1.get(q)])
+                break
+        if cls in sc.CURVED_CLASSES:
+            curved_centre_model(ctx, case, g0, target, obj)
         return
     # positive target
     if getter_raised is not None:
+        pre = model_pre(obj, cls, prop, cur, getter_raised)
         try:
             setattr(obj, prop, 1.0)
             ctx.fail(sig + ":unreadable-but-settable", "getter raises but the setter succeeded", case, repr(getter_raised))
-        except Exception:
+        except Exception as e:
             if not same_geometry(g0, geometry(obj), size):
                 ctx.fail(sig + ":raises-but-changes-shape", "setter raised but changed the shape", case, "")
+            model_post(ctx, case, pre, obj, e, 1.0)
         ctx.count("getter-raises")
         return
     target = float(cur) * val
+    others0 = size_getters(obj, skip=(prop,))
+    pre = model_pre(obj, cls, prop, cur, None)
     try:
         setattr(obj, prop, target)
     except Exception as e:
@@ -137,6 +273,7 @@ def eval_case(ctx, case):
     if not abs(back - target) <= 1e-9 * abs(target):
         ctx.fail(sig + ":reads-back", "property does not read back as assigned", case, [back, target])
     g1 = geometry(obj)
+    model_post(ctx, case, pre, obj, None, target)
     if is_shape_parameter(cls, prop):
         # a semi-axis of an ellipse/ellipsoid or the rounding radius of a spheropolytope is a shape parameter:
         # it reads back and nothing else changes (a uniform scaling is impossible by construction)
@@ -154,6 +291,9 @@ def eval_case(ctx, case):
         if not (k > 0 and sc.num_close(v1, k * v0, k * size, 1e-9)):
             ctx.fail(sig + ":not-a-similarity", "vertices are not the old ones times one positive factor", case, [k])
             return
+    if "normal" in g0 and not sc.num_close(g0["normal"], g1["normal"], 1.0, 1e-12):
+        ctx.fail(sig + ":not-a-similarity", "a size setter changed the normal", case, [g0["normal"], g1["normal"]])
+        return
     for n in ("radius", "a", "b", "c"):
         if n in g0 and g0[n] > 0:
             kk = g1[n] / g0[n]
@@ -162,6 +302,9 @@ def eval_case(ctx, case):
             elif abs(kk - k) > 1e-9 * k:
                 ctx.fail(sig + ":not-a-similarity", "%s scaled by a different factor" % n, case, [k, kk])
                 return
+        elif n in g0 and g1[n] != 0:
+            ctx.fail(sig + ":not-a-similarity", "a zero %s became non-zero" % n, case, [g1[n]])
+            return
     if k is None or not np.isfinite(k) or k <= 0:
         ctx.fail(sig + ":not-a-similarity", "no positive scale factor", case, [k])
         return
@@ -170,6 +313,15 @@ def eval_case(ctx, case):
     d1 = dims(obj)
     if any(isinstance(d0[kx], float) and not sc.num_close(d0[kx], d1.get(kx, np.nan), 1.0, 1e-7) for kx in d0):
         ctx.fail(sig + ":descriptor-changed", "a dimensionless descriptor changed under a size setter", case, [d0, d1])
+    # ---- every other size-like getter scales by k^degree (a setter that rescales only part of the state fails here)
+    others1 = size_getters(obj, skip=(prop,))
+    for q, v0 in others0.items():
+        want = v0 * k ** prop_code(q)
+        tol = 1e-6 if q in sc.LOOSE else 1e-9
+        if q not in others1 or not abs(others1[q] - want) <= tol * abs(want):
+            ctx.fail(sig + ":other-measure:" + q, "after the assignment %s is not k^%d times its old value" % (q, prop_code(q)),
+                     case, [v0, others1.get(q), k])
+            break
     # ---- B: the model's scale factor and guard for this setter
     try:
         r = ctx.driver.F("setter.factor", prop_code(prop), float(cur), target)
@@ -193,28 +345,340 @@ def prop_code(prop):
     return 1
 
 
+# ------------------------------------------------------------------ B: the per-class setter tables of Model/Setters.lean
+
+_TABLE = {}
+
+
+def _strs(r, pos):
+    n = r[pos]
+    pos += 1
+    out = []
+    for _ in range(n):
+        ln = r[pos]
+        out.append("".join(chr(c) for c in r[pos + 1:pos + 1 + ln]))
+        pos += 1 + ln
+    return out, pos
+
+
+def lean_table(ctx):
+    """class -> (scalar property names in the order of the Lean enumeration, vector property names)."""
+    if not _TABLE:
+        for i, cls in enumerate(CLASSES):
+            r = ctx.driver.F("setter.props", i)
+            ln = r[0]
+            name = "".join(chr(c) for c in r[1:1 + ln])
+            sp, pos = _strs(r, 1 + ln)
+            vp, pos = _strs(r, pos)
+            if name != cls:
+                ctx.disagree("setter.props", {"cls": cls}, "class order differs: " + name)
+            _TABLE[cls] = (sp, vp)
+    return _TABLE
+
+
+def check_table(ctx):
+    """every settable property found by reflection has a model step, and the model has no step for a property that
+    does not exist."""
+    S = sc.shapes_mod()
+    tab = lean_table(ctx)
+    for cls in CLASSES:
+        refl = set(sc.settable_properties(getattr(S, cls)))
+        sp, vp = tab[cls]
+        ctx.count("table-props", len(refl))
+        if set(sp) | set(vp) != refl or len(set(sp)) != len(sp):
+            ctx.disagree("setter.props", {"cls": cls, "table": True},
+                         {"only-in-implementation": sorted(refl - set(sp) - set(vp)),
+                          "only-in-model": sorted((set(sp) | set(vp)) - refl)})
+
+
+_EXT_CODE = {"NotImplementedError": 1, "RuntimeError": 2, "ValueError": 3}
+
+
+def _ext(cur, getter_raised):
+    if getter_raised is None:
+        return [0, float(cur)]
+    return [_EXT_CODE.get(exc_kind(getter_raised), 4)]
+
+
+def _cp_tokens(o):
+    heads = [[int(f[0]), int(f[1]), int(f[2])] for f in o.faces]
+    simp = [[int(a), int(b), int(c)] for a, b, c in np.asarray(o.simplices)]
+    return [L(list(np.array(o.vertices))), L(simp), L(heads), L(list(o._equations[:, :3])),
+            L([float(x) for x in o._equations[:, 3]]), L(list(o._simplex_equations[:, :3])),
+            L([float(x) for x in o._simplex_equations[:, 3]]), float(o._volume), float(o._area),
+            np.array(o._centroid)]
+
+
+def _cp_live(o):
+    return {"vertices": np.array(o.vertices), "eqN": o._equations[:, :3], "eqD": o._equations[:, 3],
+            "seqN": o._simplex_equations[:, :3], "seqD": o._simplex_equations[:, 3],
+            "volume": o._volume, "area": o._area, "centroid": np.array(o._centroid)}
+
+
+_CP_DEG = {"vertices": 1, "eqN": 0, "eqD": 1, "seqN": 0, "seqD": 1, "volume": 3, "area": 2, "centroid": 1}
+
+
+class _Take:
+    def __init__(self, rest):
+        self.rest, self.pos = rest, 0
+
+    def __call__(self, k):
+        out = np.array(self.rest[self.pos:self.pos + k], dtype=float)
+        self.pos += k
+        return out
+
+    def raw(self):
+        v = self.rest[self.pos]
+        self.pos += 1
+        return v
+
+    def getter(self):
+        """`i0 value` -> value, `i1` -> None (the model's getter is external / raises)."""
+        if self.raw() == 0:
+            return float(self(1)[0])
+        return None
+
+    def cp(self, nv, nf, ns):
+        return {"vertices": self(3 * nv).reshape(nv, 3), "eqN": self(3 * nf).reshape(nf, 3), "eqD": self(nf),
+                "seqN": self(3 * ns).reshape(ns, 3), "seqD": self(ns), "volume": self(1)[0], "area": self(1)[0],
+                "centroid": self(3)}
+
+
+def _ellipe_value(obj):
+    from scipy.special import ellipe
+    return float(ellipe(obj.eccentricity ** 2))
+
+
+def _ellint_values(obj):
+    """the two incomplete elliptic integrals `Ellipsoid.surface_area` evaluates on the current axes (0, 0 when the
+    sphere branch is taken)."""
+    from scipy.special import ellipeinc, ellipkinc
+    c, b, a = sorted([obj.a, obj.b, obj.c])
+    if a > c:
+        phi = np.arccos(c / a)
+        m = min((a ** 2 * (b ** 2 - c ** 2)) / (b ** 2 * (a ** 2 - c ** 2)), 1.0)
+        return float(ellipeinc(phi, m)), float(ellipkinc(phi, m))
+    return 0.0, 0.0
+
+
+def model_pre(obj, cls, prop, cur, getter_raised):
+    """tokens of the pre-state and of the external inputs, taken BEFORE the assignment."""
+    pre = {"ext": _ext(cur, getter_raised)}
+    if cls == "ConvexPolyhedron":
+        pre["state"] = _cp_tokens(obj)
+    elif cls == "Polyhedron":
+        pre["state"] = [L(list(np.array(obj.vertices))), L([L([int(i) for i in f]) for f in obj.faces]),
+                        L(list(obj._equations[:, :3])), L([float(x) for x in obj._equations[:, 3]])]
+    elif cls in ("Polygon", "ConvexPolygon"):
+        pre["state"] = [L(list(np.array(obj._vertices))), np.array(obj._normal, dtype=float)]
+    elif cls == "ConvexSpheropolygon":
+        pre["state"] = [L(list(np.array(obj.polygon._vertices))), np.array(obj.polygon._normal, dtype=float),
+                        float(obj.radius)]
+    elif cls == "ConvexSpheropolyhedron":
+        p = obj.polyhedron
+        fi = [[int(i), int(j), int(e[0]), int(e[1])] for i, j, e in p._get_face_intersections()]
+        pre["state"] = _cp_tokens(p) + [float(obj.radius), L(fi)]
+    elif cls in ("Circle", "Sphere"):
+        pre["state"] = [float(obj.radius), np.array(obj.centroid, dtype=float)]
+    elif cls == "Ellipse":
+        pre["state"] = [float(obj.a), float(obj.b), np.array(obj.centroid, dtype=float)]
+        pre["e0"] = _ellipe_value(obj)
+    elif cls == "Ellipsoid":
+        pre["state"] = [float(obj.a), float(obj.b), float(obj.c), np.array(obj.centroid, dtype=float)]
+        pre["e0"] = _ellint_values(obj)
+    return pre
+
+
+_OP = {"ConvexPolyhedron": "setter.cp", "Polyhedron": "setter.ph", "Polygon": "setter.pg", "ConvexPolygon": "setter.pg",
+       "ConvexSpheropolygon": "setter.spg", "ConvexSpheropolyhedron": "setter.sph", "Circle": "setter.circle",
+       "Sphere": "setter.sphere", "Ellipse": "setter.ellipse", "Ellipsoid": "setter.ellipsoid"}
+
+
+def _cmp(ctx, op, case, got, live, deg, size):
+    for k in got:
+        if got[k] is None:
+            continue
+        if not sc.num_close(got[k], live[k], size ** deg[k] if deg[k] else 1.0, 1e-9):
+            ctx.disagree(op + ":" + k, case, [np.asarray(got[k]).tolist(), np.asarray(live[k]).tolist()])
+            return False
+    return True
+
+
+def model_post(ctx, case, pre, obj, raised, target):
+    """B: the model step `Setters.<Class>.set prop state target` (Model/Setters.lean) on the pre-state: same raise
+    (kind), same full post-state, same read-back (where the getter is a closed form of the model) as the live object."""
+    cls, prop = case["cls"], case["prop"]
+    sp, _ = lean_table(ctx)[cls]
+    if prop not in sp:
+        return          # reported by check_table
+    op = _OP[cls]
+    args = [sp.index(prop)] + pre["state"]
+    if cls == "Ellipse":
+        args += [pre["e0"], _ellipe_value(obj)]
+    elif cls == "Ellipsoid":
+        args += list(pre["e0"]) + list(_ellint_values(obj))
+    elif cls not in ("Circle", "Sphere"):
+        args += pre["ext"]
+    args.append(float(target))
+    ctx.count("model-step:" + cls)
+    try:
+        r = ctx.driver.F(op, *args)
+        mkind = None
+    except ModelRaise as e:
+        r, mkind = None, e.kind
+    ikind = None if raised is None else exc_kind(raised)
+    if (mkind is None) != (ikind is None) or (mkind is not None and mkind != ikind and
+                                             not (mkind == "Exception" and ikind not in _EXT_CODE)):
+        ctx.disagree(op + ":raise", case, {"model": mkind, "implementation": ikind})
+        return
+    if mkind is not None:
+        return
+    take = _Take(r)
+    size = sc.size_of(obj)
+    try:
+        if prop in sc.LOOSE:
+            import random
+            random.seed(20240917)
+        back = float(getattr(obj, prop))
+    except Exception:
+        back = None
+    if cls in ("ConvexPolyhedron", "ConvexSpheropolyhedron"):
+        core = obj.polyhedron if cls == "ConvexSpheropolyhedron" else obj
+        got = take.cp(len(core.vertices), len(core.faces), len(core.simplices))
+        if not _cmp(ctx, op, case, got, _cp_live(core), _CP_DEG, size):
+            return
+        if cls == "ConvexSpheropolyhedron":
+            size = size + float(obj.radius)
+            got2 = {"radius": take(1)[0], "volume": take.getter(), "surface_area": take.getter(),
+                    "mean_curvature": take.getter()}
+            live2 = {"radius": obj.radius, "volume": obj.volume, "surface_area": obj.surface_area,
+                     "mean_curvature": obj.mean_curvature}
+            if not _cmp(ctx, op, case, got2, live2, {"radius": 1, "volume": 3, "surface_area": 2, "mean_curvature": 1}, size):
+                return
+    elif cls == "Polyhedron":
+        nv, nf = len(obj.vertices), len(obj.faces)
+        got = {"vertices": take(3 * nv).reshape(nv, 3), "eqN": take(3 * nf).reshape(nf, 3), "eqD": take(nf),
+               "volume": take(1)[0], "surface_area": take(1)[0]}
+        live = {"vertices": np.array(obj.vertices), "eqN": obj._equations[:, :3], "eqD": obj._equations[:, 3],
+                "volume": obj.volume, "surface_area": obj.surface_area}
+        if not _cmp(ctx, op, case, got, live, {"vertices": 1, "eqN": 0, "eqD": 1, "volume": 3, "surface_area": 2}, size):
+            return
+    elif cls in ("Polygon", "ConvexPolygon", "ConvexSpheropolygon"):
+        poly = obj.polygon if cls == "ConvexSpheropolygon" else obj
+        nv = len(poly._vertices)
+        got = {"vertices": take(3 * nv).reshape(nv, 3), "normal": take(3)}
+        live = {"vertices": np.array(poly._vertices), "normal": np.array(poly._normal, dtype=float)}
+        if cls == "ConvexSpheropolygon":
+            got["radius"] = take(1)[0]
+            live["radius"] = obj.radius
+            size = size + float(obj.radius)
+        got.update({"area": take(1)[0], "perimeter": take(1)[0]})
+        live.update({"area": obj.area, "perimeter": obj.perimeter})
+        if not _cmp(ctx, op, case, got, live, {"vertices": 1, "normal": 0, "radius": 1, "area": 2, "perimeter": 1}, size):
+            return
+    elif cls in ("Circle", "Sphere"):
+        got = {"radius": take(1)[0], "centroid": take(3)}
+        live = {"radius": obj.radius, "centroid": np.array(obj.centroid, dtype=float)}
+        if not _cmp(ctx, op, case, got, live, {"radius": 1, "centroid": 1}, size):
+            return
+    elif cls == "Ellipse":
+        got = {"a": take(1)[0], "b": take(1)[0], "centroid": take(3)}
+        live = {"a": obj.a, "b": obj.b, "centroid": np.array(obj.centroid, dtype=float)}
+        if not _cmp(ctx, op, case, got, live, {"a": 1, "b": 1, "centroid": 1}, size):
+            return
+    else:
+        got = {"a": take(1)[0], "b": take(1)[0], "c": take(1)[0], "centroid": take(3)}
+        live = {"a": obj.a, "b": obj.b, "c": obj.c, "centroid": np.array(obj.centroid, dtype=float)}
+        if not _cmp(ctx, op, case, got, live, {"a": 1, "b": 1, "c": 1, "centroid": 1}, size):
+            return
+    mback = take.getter()
+    if mback is not None:
+        ctx.count("model-readback-closed-form")
+        if back is None or not abs(mback - back) <= 1e-9 * max(abs(back), 1e-300):
+            ctx.disagree(op + ":read-back", case, [mback, back])
+
+
+def curved_centre_model(ctx, case, g0, target, obj):
+    cls = case["cls"]
+    radii = [g0[n] for n in ("radius", "a", "b", "c") if n in g0]
+    r = ctx.driver.F("setter.curved.centre", CLASSES.index(cls), *radii, g0["centroid"], np.array(target, dtype=float))
+    got = np.array(r, dtype=float)
+    live = np.r_[[float(getattr(obj, n)) for n in ("radius", "a", "b", "c") if n in g0], np.array(obj.centroid, dtype=float)]
+    if not sc.num_close(got, live, sc.size_of(obj), 1e-12):
+        ctx.disagree("setter.curved.centre", case, [got.tolist(), live.tolist()])
+
+
+def closed_form_getters(ctx, cls, flavour, base_seed):
+    """B: the closed-form getters of the model on the UNCHANGED base shape (ConvexPolyhedron centred balls; the
+    spheropolyhedron's edge sums) equal the implementation's getters."""
+    rng = np.random.default_rng(base_seed)
+    obj = build(rng, cls, flavour)
+    case = {"cls": cls, "flavour": flavour, "base_seed": base_seed, "getters": True}
+    sp, _ = lean_table(ctx)[cls]
+    size = sc.size_of(obj)
+    if cls == "ConvexPolyhedron":
+        # certificate: the hypothesis `s.centroid = CP.centroid s.tris s.volume` of cp_set_closed_reads_back
+        r = ctx.driver.F("setter.cp.centroid", *_cp_tokens(obj))
+        ctx.count("certificate:centroid-coherent")
+        if not sc.num_close(np.array(r, dtype=float), np.array(obj._centroid, dtype=float), size, 1e-9):
+            ctx.disagree("setter.cp.centroid", case, [list(r), np.array(obj._centroid).tolist()])
+        for prop in ("volume", "surface_area", "minimal_centered_bounding_sphere_radius",
+                     "maximal_centered_bounded_sphere_radius"):
+            try:
+                live = float(getattr(obj, prop))
+            except Exception:
+                continue
+            try:
+                r = ctx.driver.F("setter.cp.get", sp.index(prop), *_cp_tokens(obj), 4)
+            except ModelRaise as e:
+                ctx.disagree("setter.cp.get:" + prop, case, "model raised " + e.kind)
+                continue
+            if not abs(r[0] - live) <= 1e-9 * size ** prop_code(prop):
+                ctx.disagree("setter.cp.get:" + prop, case, [r[0], live])
+    else:
+        p = obj.polyhedron
+        fi = [[int(i), int(j), int(e[0]), int(e[1])] for i, j, e in p._get_face_intersections()]
+        for prop in ("radius", "volume", "surface_area", "mean_curvature"):
+            live = float(getattr(obj, prop))
+            try:
+                r = ctx.driver.F("setter.sph.get", sp.index(prop), *_cp_tokens(p), float(obj.radius), L(fi))
+            except ModelRaise as e:
+                ctx.disagree("setter.sph.get:" + prop, case, "model raised " + e.kind)
+                continue
+            if not abs(r[0] - live) <= 1e-9 * (size + obj.radius) ** prop_code(prop):
+                ctx.disagree("setter.sph.get:" + prop, case, [r[0], live])
+
+
 def all_cases(ctx):
     rng = ctx.rng
     S = sc.shapes_mod()
     cases = []
-    for cls in sc.VERTEX_CLASSES + sc.CURVED_CLASSES:
-        flavours = ["regular", "generic"] if cls in sc.VERTEX_CLASSES else ["any"]
-        for flavour in flavours:
+    for cls in CLASSES:
+        reps = 1 if ctx.tier == "quick" else 4          # thorough: four different base shapes of every flavour
+        for fi, flavour in [(i, f) for i, f in enumerate(FLAVOURS[cls]) for _ in range(reps)]:
             base_seed = int(rng.integers(1 << 30))
+            primary = fi < 2 or cls in sc.CURVED_CLASSES
             for prop in sc.settable_properties(getattr(S, cls)):
                 if prop in ("centroid", "center"):
                     cases.append({"cls": cls, "flavour": flavour, "base_seed": base_seed, "prop": prop, "mode": "vec",
                                   "value": rng.uniform(-5, 5, size=3).tolist()})
                     continue
-                nt = 2 if ctx.tier == "quick" else 8
+                nt = (2 if primary else 1) if ctx.tier == "quick" else (8 if primary else 4)
                 for _ in range(int(nt * ctx.widen)):
                     f = float(10 ** rng.uniform(-3, 3))
                     cases.append({"cls": cls, "flavour": flavour, "base_seed": base_seed, "prop": prop, "mode": "pos",
                                   "value": f})
                 zero_ok = prop == "radius" and cls.startswith("ConvexSphero")
-                for bad in ([-1.0, float("nan")] if zero_ok else [0.0, -1.0, float("nan")]):
+                bads = [-1.0, float("nan")] if zero_ok else [0.0, -1.0, float("nan")]
+                if not primary and ctx.tier == "quick":
+                    bads = [bads[int(rng.integers(len(bads)))], float("nan")]
+                for bad in bads:
                     cases.append({"cls": cls, "flavour": flavour, "base_seed": base_seed, "prop": prop, "mode": "bad",
                                   "value": bad})
+                if zero_ok:
+                    # the rounding radius may be set to zero (and then every size setter still works)
+                    cases.append({"cls": cls, "flavour": flavour, "base_seed": base_seed, "prop": prop, "mode": "pos",
+                                  "value": 0.0})
     return cases
 
 
@@ -224,7 +688,7 @@ def model_case(ctx, case):
     (so the read-back theorems of Props/C08.lean speak about what the implementation computes)."""
     import c03
     cls, prop, mode, val = case["cls"], case["prop"], case["mode"], case["value"]
-    if cls not in sc.VERTEX_CLASSES:
+    if cls not in sc.VERTEX_CLASSES or case["flavour"] not in ("regular", "generic"):
         return
     if is_shape_parameter(cls, prop):
         if mode == "pos":
@@ -237,17 +701,30 @@ def model_case(ctx, case):
 
 
 def run(ctx):
+    check_table(ctx)
+    seen = set()
     for case in all_cases(ctx):
         ctx.case(case)
         ctx.count("cls:" + case["cls"])
         ctx.count("mode:" + case["mode"])
+        ctx.count("flavour:%s:%s" % (case["cls"], case["flavour"]))
         eval_case(ctx, case)
         model_case(ctx, case)
+        key = (case["cls"], case["flavour"])
+        if key not in seen and case["cls"] in ("ConvexPolyhedron", "ConvexSpheropolyhedron"):
+            seen.add(key)
+            closed_form_getters(ctx, case["cls"], case["flavour"], case["base_seed"])
 
 
 def replay(ctx, payload):
     case = payload.get("case", payload)
     ctx.case(case)
+    if case.get("table"):
+        check_table(ctx)
+        return
+    if case.get("getters"):
+        closed_form_getters(ctx, case["cls"], case["flavour"], case["base_seed"])
+        return
     if "ops" in case:       # a state-machine disagreement recorded by model_case
         import c03
         c03.model_history(ctx, case["base_seed"], case["flavour"], case["ops"], case["cls"])
